@@ -237,6 +237,8 @@ func (m *MethodMocker) ExportMethod(name string) UnExportedMocker {
 // mock 回调函数, 需要和 mock 模板函数的签名保持一致
 // 方法的参数签名写法比如: func(s *Struct, arg1, arg2 type), 其中第一个参数必须是接收体类型
 func (m *MethodMocker) Apply(callback interface{}) {
+	// Apply 会覆盖之前设定的 When 条件和 Return: 丢弃旧的 when, 之后的 When/Return 会重新创建并应用
+	m.when = nil
 	m.doApply(callback)
 }
 
@@ -491,6 +493,8 @@ func NewDefMocker(pkgName string, funcDef interface{}) *DefMocker {
 
 // Apply 代理方法实现
 func (m *DefMocker) Apply(callback interface{}) {
+	// Apply 会覆盖之前设定的 When 条件和 Return: 丢弃旧的 when, 之后的 When/Return 会重新创建并应用
+	m.when = nil
 	m.doApply(callback)
 }
 
